@@ -243,21 +243,29 @@ func (c *c09Runner) judgeFresh(cs *C09Case, run int64) (*c09Obs, bool, error) {
 		return nil, false, err
 	}
 	defer cleanup()
-	exec := func(tasks [][]wire.Op) ([]taskOutcome, error) {
+	exec := func(tasks [][]wire.Op, predecessors int) ([]taskOutcome, error) {
 		fp := libsim.NewPool(c.e.Tree.Worker("inst"), 1, workerAS)
 		defer fp.Close()
-		c2 := *c
-		c2.pool = fp
-		out, _, err := c2.solo(&C09Case{Tasks: tasks}, cs.Other, dir, run)
+		req := &wire.Request{Run: run, Sched: cs.Other, Budget: StepBudget, Cwd: dir, Env: stdEnv}
+		for i, ops := range tasks {
+			t := wire.TaskSpec{Ops: ops}
+			if i < predecessors {
+				// the predecessors ran under another environment: the
+				// environment is an input of each evaluation, not of the process
+				t.Env = map[string]string{"VERIF_A": fmt.Sprintf("other%d", i), "VERIF_B": "", "VERIF_UNSET": "set-for-predecessor"}
+			}
+			req.Tasks = append(req.Tasks, t)
+		}
+		out, _, err := execTasks(fp, req)
 		return out, err
 	}
-	alone, err := exec(cs.Tasks[:1])
+	alone, err := exec(cs.Tasks[:1], 0)
 	if err != nil {
 		return nil, false, err
 	}
 	// predecessors first, the evaluation under test last
 	order := append(append([][]wire.Op{}, cs.Tasks[1:]...), cs.Tasks[0])
-	after, err := exec(order)
+	after, err := exec(order, len(order)-1)
 	if err != nil {
 		return nil, false, err
 	}
